@@ -42,6 +42,10 @@ func (i *ipfsAccessController) CanAppend(entry logac.LogEntry, p identityprovide
 	i.muWriteAccess.RLock()
 	defer i.muWriteAccess.RUnlock()
 
+	if entry.GetIdentity() == nil {
+		return fmt.Errorf("entry has no identity")
+	}
+
 	key := entry.GetIdentity().ID
 	for _, allowedKey := range i.writeAccess {
 		if allowedKey == key || allowedKey == "*" {
